@@ -53,3 +53,23 @@ def determinism(chk, args):
     os.makedirs(os.path.dirname(out), exist_ok=True)
     json.dump({"seeds_per_property": n, "partitions": [1, 3, 16], "report": report}, open(out, "w"), indent=1)
     return rc
+
+
+def fidelity(chk, args):
+    """Differential test of the tokio::fs::File port against the real tokio 1.42.0 File."""
+    n = "20000"
+    if "--sequences" in args:
+        n = args[args.index("--sequences") + 1]
+    r = subprocess.run(["cargo", "build", "--release", "--offline", "-p", "fidelity"], cwd=chk.SIM, env=chk.env(), capture_output=True, text=True)
+    if r.returncode != 0:
+        print("HARNESS-ERROR: building the fidelity test failed\n" + r.stderr[-2000:], file=sys.stderr)
+        return 2
+    r = subprocess.run([os.path.join(chk.SIM, "target", "release", "fidelity"), n, "1"], capture_output=True, text=True)
+    print(r.stdout.strip()[:3000])
+    out = os.path.join(chk.OUT, "evidence", "selftest-fidelity.json")
+    os.makedirs(os.path.dirname(out), exist_ok=True)
+    try:
+        json.dump(json.loads(r.stdout.strip().splitlines()[-1]), open(out, "w"), indent=1)
+    except Exception:
+        pass
+    return 0 if r.returncode == 0 else 2
